@@ -2,20 +2,22 @@
 (***************************************************************************)
 (* Trace validation for C03 (binding B2): each `matprog` record is one     *)
 (* program run on a row-major and a column-major value side by side; after *)
-(* every call both values were projected through five routes (indexing,    *)
-(* row array, column array, flat slice view read with the OpenGL transpose *)
-(* flag, Display).  All ten projections must equal the abstract matrix of  *)
-(* the machine after that call.  Single-call records: map_rows / map_cols, *)
+(* every call both values were projected through eight routes (indexing,   *)
+(* row array, column array, flat slice view and raw pointer view read with *)
+(* the OpenGL transpose flag, mint row and column matrices, Display).  All *)
+(* sixteen projections must equal the abstract matrix of the machine after *)
+(* that call (and is_packed holds).  Single-call records: map_rows /       *)
+(* map_cols,                                                               *)
 (* diagonal / trace / counts.                                              *)
 (***************************************************************************)
 EXTENDS VekMatProg, TLC, Json, IOUtils
 Rec == ndJsonDeserialize(IOEnv.TRACE)
 VARIABLE l
-Routes == {"idx", "rows", "cols", "slice", "disp"}
+Routes == {"idx", "rows", "cols", "slice", "ptr", "mintr", "mintc", "disp"}
 StepOk(o, A) == /\ \A rt \in Routes : o.r[rt] = A /\ o.c[rt] = A
                 \* the flat view lists elements in the order its name says: rows for as_row_slice (flag TRUE = transpose
                 \* for OpenGL), columns for as_col_slice (flag FALSE)
-                /\ \A v \in {o.r, o.c} : v.flag = (IF v.lay = "r" THEN 1 ELSE 0) /\ v.named_order = 1
+                /\ \A v \in {o.r, o.c} : v.flag = (IF v.lay = "r" THEN 1 ELSE 0) /\ v.named_order = 1 /\ v.packed = 1
                 /\ o.r.lay # o.c.lay                                   \* the two registers always hold the two different layouts
 \* by induction over the recorded matrices: the abstract matrix after call k is Apply(matrix after call k-1, call k),
 \* the previous matrix being the (already validated) indexing view of the previous step; equal to
